@@ -29,6 +29,8 @@ type tables struct {
 	MaxUnused           int       `json:"maxUnused"`
 	HeaderBases         []hdrBase `json:"headerBases"`
 	TxBases             []txBase  `json:"txBases"`
+	ReceiptBound        []string  `json:"receiptBound"`
+	ReceiptBases        []rcBase  `json:"receiptBases"`
 }
 
 // boundary values of a base header (Codec.tla HeaderBases) and the fields the specification says are signed for it
@@ -502,6 +504,10 @@ func runIDBind(tablesPath string, seed int64, out string) {
 			}
 			return trie.DeriveRoot(l)
 		}, len(blobs))
+		// ------------------------------------------------------------------ receipts: every field is committed to by the root
+		runReceiptBinding(g, tb.ReceiptBound, tb.ReceiptBases, r, dev)
+		// ------------------------------------------------------------------ DeriveRoot = the independent Merkle root
+		deriveRootVsReference(g, r, dev)
 		// the root a header commits to is the root of the encodings: block.Builder must agree with Transactions.RootHash
 		b := new(block.Builder)
 		for _, t := range txs {
@@ -519,7 +525,7 @@ func runIDBind(tablesPath string, seed int64, out string) {
 		}
 	})
 	if !ok {
-		r.Deviations = append(r.Deviations, judge("idbind", nil, false, false, o, "")...)
+		r.Deviations = append(r.Deviations, judge("idbind", nil, false, false, o, "", modelStream{})...)
 	}
 	r.Distinct = r.Evaluations
 	r.Nontrivial = r.Evaluations
